@@ -1069,7 +1069,7 @@ func runC06(c *Ctx) {
 	if thorough {
 		c.SetBudget(30 * time.Minute)
 	} else {
-		c.SetBudget(150 * time.Second)
+		c.SetBudget(300 * time.Second)
 	}
 	c.Rule = "for every enumerated pattern that both regexp.Compile(p) and compat.Compile(p, regexp2.RE2) accept (RE2 + OptionMaintainCaptureOrder when named and unnamed groups are mixed) and every input byte string up to the bound: String() and all 21 methods of compat.Matcher (Match, MatchString, MatchReader, the 10 Find* methods, the 8 FindAll* methods with every n in {-1,0,1,2,3}; string, []byte and io.RuneReader forms) return values deeply equal (reflect.DeepEqual semantics: nil-ness, byte offsets, -1 pairs, nil []byte for unset groups) to those of *regexp.Regexp. Evaluation = one (pattern, input) point with all 53 call pairs; non-trivial = points where Go reports a match."
 	c.Assume("the adapter has no NumSubexp/SubexpNames/SubexpIndex/LiteralPrefix/Replace*/Expand/Split methods; group counts are compared through the length of the Submatch results")
